@@ -249,6 +249,31 @@ def r_C05_C10(root):
     src = ast.unparse(walk_iter)
     if ".cont" not in src and not any(".cont" in ast.unparse(g) for n in ast.walk(walk) for g, pol in guards(n) if pol and isinstance(n, ast.Return)):
         out.append(Finding("C10", "C10.a", P, "FQN.find_obj", src[:120], "candidate attributes are not restricted to containment (parent link and references are walked)", witness="package p { package q { } }  ref p.q.p"))
+    # C10.f: the containment table consulted for the attributes of X is the table of X's own class
+    inst += 1
+    scanned = next((x.value for x in ast.walk(walk_iter) if isinstance(x, ast.Attribute) and x.attr == "__dict__"), None)
+    tabs = [x.value.value for x in ast.walk(walk_iter) if isinstance(x, ast.Attribute) and x.attr == "cont" and isinstance(x.value, ast.Subscript)]
+    if scanned is not None and tabs:
+        def _table_owner(tb, depth=0):
+            """root object whose class's _tx_attrs the table expression denotes (follows one closure level)"""
+            if isinstance(tb, ast.Name) and depth < 3:
+                for outer in ("FQN.__call__._find_obj_fqn.find_obj", "FQN.__call__._find_obj_fqn", "FQN.__call__"):
+                    try: of = find(load(root, P), outer)
+                    except AnalysisError: continue
+                    ds = [n for n in own_nodes(of) if isinstance(n, ast.Assign) and any(isinstance(tg, ast.Name) and tg.id == tb.id for tg in n.targets)]
+                    if len(ds) == 1: return _table_owner(ds[0].value, depth + 1)
+                    if ds: return None
+                return None
+            if "_tx_attrs" not in ast.unparse(tb): return None
+            for x in ast.walk(tb):
+                if isinstance(x, ast.Attribute) and x.attr == "__class__": return ast.unparse(x.value)
+                if isinstance(x, ast.Call) and callee_name(x) == "type" and len(x.args) == 1: return ast.unparse(x.args[0])
+            return None
+        for tb in tabs:
+            own = _table_owner(tb)
+            okf = own is not None and own == ast.unparse(scanned)
+            ob("C10", "C10.f", P, "FQN.find_obj", "containment table of %s used for the attributes of %s" % (own, ast.unparse(scanned)), okf)
+            if not okf: out.append(Finding("C10", "C10.f", P, "FQN.find_obj", "%s[...].cont" % ast.unparse(tb)[:60], "the attributes of %s are filtered with the containment table of %s: for an object of another class its reference attributes are unknown to that table (or containment there) and are walked" % (ast.unparse(scanned), own or "an unidentified object"), witness="a.B.C where B is of another class than the scope start and B.ref points to an object named C"))
     inst += 1
     br = next((n for n in ast.walk(walk) if isinstance(n, ast.If) and "isinstance(obj, (list, tuple))" in ast.unparse(n.test)), None)
     if br is None or not (any(isinstance(x, ast.Return) for b in br.body for x in ast.walk(b)) and any(isinstance(x, ast.Return) for b in br.orelse for x in ast.walk(b))):
@@ -260,6 +285,10 @@ def r_C05_C10(root):
     starts_here = any(cfgf.paths_avoiding(cfgf.entry, s_, lambda n: n in moves) for s_ in searches) and not any(cfgf.paths_avoiding(cfgf.entry, m, lambda n: n in searches) for m in moves)            # the referencing object itself is searched before any step outward
     only_parent = all(ast.unparse(m.ast.value).replace(" ", "") in (p0 + ".parent",) for m in moves)
     repeats = any(cfgf.paths_avoiding(m, s_, lambda n: False) for m in moves for s_ in searches)           # after a step outward the search is repeated
+    for c in [c for c in calls(fr) if callee_name(c) == "_find_obj_fqn" and c.args]:
+        a0 = fif.expand(c.args[0], at=c)
+        if not (isinstance(a0, ast.Name) and a0.id == p0):
+            out.append(Finding("C10", "C10.b", P, "FQN._find_referenced_obj", " ".join(ast.unparse(c).split())[:100], "a search is started at %s, which is neither the referencing object nor one of its ancestors reached by climbing: a chain further out wins over the nearest one" % ast.unparse(a0), witness="the same dotted chain exists at top level and in a nearer enclosing package"))
     if not (searches and moves and starts_here and only_parent and repeats):
         out.append(Finding("C10", "C10.b", P, "FQN._find_referenced_obj", "search order", "search does not start at the referencing object and continue outward through its ancestors (starts at the object: %s, climbs only .parent: %s, repeats after climbing: %s)" % (bool(starts_here), only_parent, bool(repeats))))
     ff = find(load(root, P), "FQN.__call__._find_obj_fqn"); inst += 1
